@@ -263,6 +263,10 @@ def run_case(case, drv):
         m = drv.call("rx.py", pattern=ast, universe=UNIVERSE, strings=strs)
         res.corr += 1
         res.tag("ast_stream")
+        if m.get("text") != p:
+            res.corr_break("render", "pattern text differs from the Lean rendering of the AST",
+                           detail={"ast": ast, "python": p, "lean": m.get("text")})
+            return res
         # (1) the formal semantics against CPython, string by string
         for s_, mm in zip(strs, m["matches"]):
             if (cre.fullmatch(s_) is not None) != mm:
